@@ -170,9 +170,16 @@ func TestC40(t *testing.T) {
 	bound := 2
 	names := c40Names
 	if quick() {
+		// the two-thread scenarios first (small, complete within the budget: they carry the SQL clause
+		// of the statement), then the three-thread ones with a GC pass with what remains
 		names = nil
 		for _, n := range c40Names {
-			if strings.Contains(n, "gc=true") || strings.Contains(n, "versioned") || strings.Contains(n, "/NAMEDSQL/put/") {
+			if strings.Contains(n, "gc=false") && !strings.Contains(n, "NAMEDSQL/delete") && !strings.Contains(n, "NAMEDSQL/complete") {
+				names = append(names, n)
+			}
+		}
+		for _, n := range c40Names {
+			if strings.Contains(n, "gc=true") || strings.Contains(n, "versioned") {
 				names = append(names, n)
 			}
 		}
